@@ -480,8 +480,10 @@ Definition f_list_same := list_same f_same.
 Definition f_list_close (tol : float) := list_same (f_close tol).
 Definition bool_list_same := list_same Bool.eqb.
 
-(* tolerance for quantities that pass through numpy reductions (np.sum,
-   np.dot, np.mean) whose summation order is not the sequential one *)
+(* tolerance for quantities computed by numpy expressions / reductions (np.sum,
+   np.dot, np.mean: summation order is not the sequential one; a harmless
+   re-association of a Python expression must not alarm).  The kernel outputs
+   (fmat, ranks) are compared exactly. *)
 Definition TOL_GLUE : float := 0x1.19799812dea11p-40%float.   (* 1e-12 *)
 
 Inductive dcase :=
@@ -517,7 +519,7 @@ Definition d_ok (c : dcase) : bool :=
       match pit F64 KF random cst censor obs ens dobs dens, res with
       | PitErr, None => true
       | PitOk pits sudo, Some (epits, esudo) =>
-          f_list_same pits epits && bool_list_same sudo esudo
+          f_list_close TOL_GLUE pits epits && bool_list_same sudo esudo
       | _, _ => false
       end
   | CCvm data stat p =>
